@@ -147,6 +147,9 @@ struct RefVariant {
     bool junk_chunks = false; // unknown, non-mandatory chunks in between
     int order = 0;            // 0 writer's order, 1 properties interleaved right after the arrays they need, 2 DIRP late
     bool odd_padding = false; // padding other than "up to 8"
+    int hostile = 0;          // >0: NOT a permitted encoding - some arrays get a span that overlaps, overshoots, leaves a gap or is repeated,
+                              //     with a payload that matches the declared count (C07/C18 inputs); describe_hostile says what was done
+    mutable std::string hostile_desc;
     std::string describe() const { std::ostringstream o; o << "split<=" << max_split << ",widen=" << widen << ",floatpos=" << float_pos << ",varvalence=" << force_variable_valence << ",offset=" << handle_offset << ",junk=" << junk_chunks << ",order=" << order << ",oddpad=" << odd_padding; return o.str(); }
 };
 struct ByteWriter { std::string b; void u(uint64_t v, int n) { for (int i = 0; i < n; ++i) b += (char)((v >> (8 * i)) & 0xff); } void raw(const std::string &s) { b += s; } };
@@ -163,8 +166,26 @@ inline std::vector<std::pair<size_t, size_t>> ref_spans(size_t n, int max_split,
     int k = 1 + (int)rng.below(max_split); std::set<size_t> cuts; for (int i = 1; i < k; ++i) cuts.insert(1 + rng.below(n)); cuts.erase(n);
     size_t a = 0; for (size_t c : cuts) { if (c > a) { r.push_back({a, c - a}); a = c; } } r.push_back({a, n - a}); return r;
 }
+inline std::vector<std::pair<size_t, size_t>> ref_spans_v(size_t n, const RefVariant &v, Rng &rng, const char *what) {
+    auto r = ref_spans(n, v.max_split, rng);
+    if (!v.hostile || r.empty() || !rng.chance(1, 3)) return r;
+    size_t j = rng.below(r.size()); size_t k = 1 + rng.below(std::max<size_t>(1, std::min<size_t>(n, 8)));
+    std::ostringstream d; d << what << " span " << j << "/" << r.size() << " [" << r[j].first << "+" << r[j].second << "] ";
+    switch ((int)rng.below(7)) {
+    case 0: r.back().second += k; d << "last span overshoots by " << k; break;
+    case 1: { size_t room = n - r.back().first; r.back().second = std::min(n, r.back().second + k + (rng.chance(1, 2) ? 0 : room)); d << "last span count raised to " << r.back().second << " (<= total " << n << ")"; break; }
+    case 2: { size_t b = std::min(k, r[j].first); r[j].first -= b; r[j].second += b; d << "starts " << b << " early (overlap)"; break; }
+    case 3: r[j].first += k; d << "starts " << k << " late (gap)"; break;
+    case 4: r.insert(r.begin() + j, r[j]); d << "repeated"; break;
+    case 5: if (r.size() > 1) { size_t o = rng.below(r.size()); std::swap(r[j], r[o]); d << "swapped with span " << o; } else { r[j].first = n + k; d << "moved beyond the array"; } break;
+    default: r[j].second = n; d << "count := total " << n; break;
+    }
+    v.hostile_desc += d.str() + "; ";
+    return r;
+}
 inline std::string ref_encode(const Canon &c, const RefVariant &v, Rng &rng) {
     ByteWriter f;
+    auto cl = [](size_t i, size_t n) { return n == 0 ? 0 : std::min(i, n - 1); };   // hostile spans repeat the last element
     static const unsigned char magic[8] = {'O', 'V', 'M', 'B', 0xa, 0xd, 0xa, 0xff};
     f.raw(std::string((const char *)magic, 8)); f.u(1, 1); f.u(1, 1); f.u(3, 1); f.u(c.topo_type, 1); f.u(0, 4);
     f.u(c.pos.size(), 8); f.u(c.ev.size(), 8); f.u(c.fhe.size(), 8); f.u(c.chf.size(), 8);
@@ -175,10 +196,11 @@ inline std::string ref_encode(const Canon &c, const RefVariant &v, Rng &rng) {
             std::string d = p->type == "b" ? std::string(1, p->def == "01" ? 1 : 0) : p->type == "s32" ? [&] { std::string b = unhex(p->def.substr(1)); ByteWriter x; x.u(b.size(), 4); x.raw(b); return x.b; }() : unhex(p->def);
             w.u(d.size(), 4); w.raw(d); } f.raw(ref_chunk("DIRP", w.b, 1, rng, v.odd_padding)); };
     auto prop_chunks = [&](int entity) { for (size_t pi = 0; pi < plist.size(); ++pi) { auto *p = plist[pi]; if (p->kind != entity) continue;
-            for (auto sp : ref_spans(p->vals.size(), v.max_split, rng)) { ByteWriter w; w.u(sp.first, 8); w.u(sp.second, 4); w.u(pi, 4);
-                if (p->type == "b") { std::string bits((sp.second + 7) / 8, '\0'); for (size_t i = 0; i < sp.second; ++i) if (p->vals[sp.first + i] == "01") bits[i / 8] |= (char)(1 << (i % 8)); w.raw(bits); }
-                else if (p->type == "s32") for (size_t i = 0; i < sp.second; ++i) { std::string b = unhex(p->vals[sp.first + i].substr(1)); w.u(b.size(), 4); w.raw(b); }
-                else for (size_t i = 0; i < sp.second; ++i) w.raw(unhex(p->vals[sp.first + i]));
+            const size_t pn = p->vals.size();
+            for (auto sp : ref_spans_v(pn, v, rng, "PROP")) { ByteWriter w; w.u(sp.first, 8); w.u(sp.second, 4); w.u(pi, 4);
+                if (p->type == "b") { std::string bits((sp.second + 7) / 8, '\0'); for (size_t i = 0; i < sp.second; ++i) if (p->vals[cl(sp.first + i, pn)] == "01") bits[i / 8] |= (char)(1 << (i % 8)); w.raw(bits); }
+                else if (p->type == "s32") for (size_t i = 0; i < sp.second; ++i) { std::string b = unhex(p->vals[cl(sp.first + i, pn)].substr(1)); w.u(b.size(), 4); w.raw(b); }
+                else for (size_t i = 0; i < sp.second; ++i) w.raw(unhex(p->vals[cl(sp.first + i, pn)]));
                 f.raw(ref_chunk("PROP", w.b, 1, rng, v.odd_padding)); junk(); } } };
     bool dir_written = false;
     auto ensure_dir = [&]() { if (!dir_written) { dirp(); dir_written = true; } };
@@ -187,12 +209,14 @@ inline std::string ref_encode(const Canon &c, const RefVariant &v, Rng &rng) {
     // vertices
     bool fl = v.float_pos;
     if (fl) for (auto &p : c.pos) { std::string b = unhex(p); for (int d = 0; d < 3; ++d) { double x; memcpy(&x, b.data() + 8 * d, 8); if (!((double)(float)x == x) || (x == 0 && std::signbit(x))) fl = false; } }
-    for (auto sp : ref_spans(c.pos.size(), v.max_split, rng)) { ByteWriter w; w.u(sp.first, 8); w.u(sp.second, 4); w.u(fl ? 1 : 2, 1); w.u(0, 3);
-        for (size_t i = 0; i < sp.second; ++i) { std::string b = unhex(c.pos[sp.first + i]); if (!fl) w.raw(b); else for (int d = 0; d < 3; ++d) { double x; memcpy(&x, b.data() + 8 * d, 8); float y = (float)x; uint32_t u; memcpy(&u, &y, 4); w.u(u, 4); } }
+    for (auto sp : ref_spans_v(c.pos.size(), v, rng, "VERT")) { ByteWriter w; w.u(sp.first, 8); w.u(sp.second, 4); w.u(fl ? 1 : 2, 1); w.u(0, 3);
+        for (size_t i = 0; i < sp.second; ++i) { std::string b = unhex(c.pos[cl(sp.first + i, c.pos.size())]); if (!fl) w.raw(b); else for (int d = 0; d < 3; ++d) { double x; memcpy(&x, b.data() + 8 * d, 8); float y = (float)x; uint32_t u; memcpy(&u, &y, 4); w.u(u, 4); } }
         f.raw(ref_chunk("VERT", w.b, 1, rng, v.odd_padding)); junk(); }
     if (v.order == 1) { ensure_dir(); prop_chunks(0); }
     auto topo = [&](int ent, size_t n, auto get) {
-        for (auto sp : ref_spans(n, v.max_split, rng)) {
+        auto getc = get;
+        for (auto sp : ref_spans_v(n, v, rng, ent == 1 ? "TOPO(edges)" : ent == 2 ? "TOPO(faces)" : "TOPO(cells)")) {
+            auto get = [&](size_t i) { return getc(cl(i, n)); };
             uint64_t maxh = 0, minh = ~0ULL, maxval = 0, minval = ~0ULL;
             for (size_t i = 0; i < sp.second; ++i) { auto hs = get(sp.first + i); maxval = std::max<uint64_t>(maxval, hs.size()); minval = std::min<uint64_t>(minval, hs.size()); for (int h : hs) { maxh = std::max<uint64_t>(maxh, h); minh = std::min<uint64_t>(minh, h); } }
             uint64_t off = (v.handle_offset && minh != ~0ULL) ? minh : 0;
